@@ -804,11 +804,13 @@ class SArr:
     def __imul__(self, o): return self._inplace(self * o)
 
     def _write_check(self):
-        if self.view_of is not None:
-            raise Unsupported('write through a view')
         c = C()
         if self.buf in c.frame_inputs:
-            c.obl.append(Obligation('frame:no-write-to-input-buffer', list(c.pc), z3.BoolVal(False), 'frame', list(c.prefix[:c.pos])))
+            c.obl.append(Obligation('frame:no-write-to-input-buffer', list(c.pc), z3.BoolVal(False), 'frame', list(c.prefix[:c.pos]),
+                                    note='an in-place write reaches a buffer that aliases an argument'))
+            c.ghost['frame_writes'] = c.ghost.get('frame_writes', 0) + 1
+        if self.view_of is not None:
+            raise Unsupported('write through a view')
 
     # -- indexing
     def _plan(self, key, for_set=False):
@@ -1268,6 +1270,42 @@ def kind_of_dtype(t):
     if isinstance(t, str):
         return {'int': 'i', 'float': 'f', 'bool': 'b'}.get(t)
     return None
+
+
+class FrameDict(dict):
+    """an option dictionary passed in by the caller: every mutation is a frame violation (obligation False)"""
+
+    def _w(self, what):
+        c = C()
+        c.obl.append(Obligation('frame:no-write-to-input-dict', list(c.pc), z3.BoolVal(False), 'frame', list(c.prefix[:c.pos]), note='%s on a dictionary owned by the caller' % what))
+        c.ghost['frame_writes'] = c.ghost.get('frame_writes', 0) + 1
+
+    def __setitem__(self, k, v):
+        self._w('__setitem__(%r)' % (k,))
+        dict.__setitem__(self, k, v)
+
+    def __delitem__(self, k):
+        self._w('__delitem__(%r)' % (k,))
+        dict.__delitem__(self, k)
+
+    def pop(self, *a):
+        self._w('pop')
+        return dict.pop(self, *a)
+
+    def update(self, *a, **k):
+        self._w('update')
+        return dict.update(self, *a, **k)
+
+    def setdefault(self, *a):
+        self._w('setdefault')
+        return dict.setdefault(self, *a)
+
+    def clear(self):
+        self._w('clear')
+        dict.clear(self)
+
+    def copy(self):
+        return dict(self)
 
 
 class SymList:
